@@ -12,6 +12,10 @@
 (*   end   "cls"  raise StopIteration        "inst" raise StopIteration()      (class)          *)
 (*         "fall" falls off the end          "ret"  return 9                  (generators)     *)
 (*         "err"  raise KeyError at that position (i.e. after Len(items) deliveries)            *)
+(*         "errE" / "errB"  raise Exception / BaseException there: the ANCESTORS of             *)
+(*                StopIteration are not StopIteration - only the class itself and its           *)
+(*                subclasses end an iteration (found missing by an independently seeded change:  *)
+(*                the subclass test of the exhaustion check with its operands exchanged)         *)
 (* The n-th __next__ call (n counted from 0) delivers PullRes(p, n).                            *)
 (*                                                                                              *)
 (* A consumer is an action that pulls one item at a time. Observation of a case: the number of  *)
@@ -40,16 +44,18 @@ OExc(c)  == [t |-> "exc", v |-> VNone, e |-> c]
 \* ---- producers ----
 ItemSeqs == UNION { [1..k -> Alphabet] : k \in 0..MaxLen }
 Prod(kind, items, end) == [kind |-> kind, items |-> items, end |-> end]
+ErrEnds == {"err", "errE", "errB"}
+ErrClass(end) == CASE end = "err" -> "KeyError" [] end = "errE" -> "Exception" [] end = "errB" -> "BaseException"
 Producers ==
-   { Prod("class", it, e) : it \in ItemSeqs, e \in {"cls", "inst", "err"} }
-   \cup { Prod(kd, it, e) : kd \in {"gen", "able"}, it \in ItemSeqs, e \in {"fall", "ret", "err"} }
+   { Prod("class", it, e) : it \in ItemSeqs, e \in {"cls", "inst"} \cup ErrEnds }
+   \cup { Prod(kd, it, e) : kd \in {"gen", "able"}, it \in ItemSeqs, e \in {"fall", "ret"} \cup ErrEnds }
    \cup { Prod("listiter", it, "fall") : it \in ItemSeqs }
    \cup { Prod("rangeiter", [i \in 1..k |-> i - 1], "fall") : k \in 0..MaxLen }
 
 \* what the n-th call of __next__ does (n = number of calls made before)
 PullRes(p, k) ==
    IF k < Len(p.items) THEN [t |-> "item", v |-> p.items[k + 1]]
-   ELSE IF p.end = "err" /\ (k = Len(p.items) \/ p.kind = "class") THEN [t |-> "exc", v |-> 0]
+   ELSE IF p.end \in ErrEnds /\ (k = Len(p.items) \/ p.kind = "class") THEN [t |-> "exc", v |-> 0]
    ELSE [t |-> "stop", v |-> 0]      \* StopIteration, as class, as instance, or by the generator ending
 
 VARIABLES cs,     \* the case [cons, p]
@@ -72,7 +78,7 @@ Continue(a) == n' = n + 1 /\ acc' = a /\ UNCHANGED <<cs, phase, npre, out>>
 Finish(o)   == n' = n + 1 /\ phase' = "done" /\ out' = o /\ UNCHANGED <<cs, acc, npre>>
 FinishNoPull(o) == phase' = "done" /\ out' = o /\ UNCHANGED <<cs, n, acc, npre>>
 Is(c) == phase = "pull" /\ cs.cons = c
-Propagate == Finish(OExc("KeyError"))     \* any exception other than StopIteration: unchanged, to the caller
+Propagate == Finish(OExc(ErrClass(cs.p.end)))     \* any exception other than StopIteration: unchanged, to the caller
 
 \* consumers that take everything: pull until StopIteration, then compute F of the items
 Drain(F(_)) == CASE Pulled.t = "item" -> Continue(Append(acc, Pulled.v))
@@ -155,9 +161,9 @@ Spec == Init /\ [][Next]_vars
 
 -----------------------------------------------------------------------------
 (* Declarative statement of the same thing, in closed form over the whole item sequence.        *)
-Fails(p) == p.end = "err"
+Fails(p) == p.end \in ErrEnds
 FirstIdx(p, P(_)) == IF \E i \in 1..Len(p.items) : P(p.items[i]) THEN Min({ i \in 1..Len(p.items) : P(p.items[i]) }) ELSE 0
-Whole(p, F(_)) == [out |-> IF Fails(p) THEN OExc("KeyError") ELSE F(p.items), pulls |-> Len(p.items) + 1]
+Whole(p, F(_)) == [out |-> IF Fails(p) THEN OExc(ErrClass(p.end)) ELSE F(p.items), pulls |-> Len(p.items) + 1]
 Early(p, P(_), hit, miss) == LET k == FirstIdx(p, P) IN
    IF k > 0 THEN [out |-> OVal(VBool(hit)), pulls |-> k] ELSE Whole(p, LAMBDA a : OVal(VBool(miss)))
 Decl(c, p) ==
@@ -168,25 +174,25 @@ Decl(c, p) ==
      [] c = "sorted" -> Whole(p, RSorted) [] c = "zip" -> Whole(p, RZip) [] c = "map" -> Whole(p, RMap)
      [] c = "filter" -> Whole(p, RFilter) [] c = "enumerate" -> Whole(p, REnum)
      [] c \in {"join", "joinmap"} -> Whole(p, RJoin)
-     [] c = "star" -> IF len = 0 THEN [out |-> IF Fails(p) THEN OExc("KeyError") ELSE OExc("ValueError"), pulls |-> 1]
+     [] c = "star" -> IF len = 0 THEN [out |-> IF Fails(p) THEN OExc(ErrClass(p.end)) ELSE OExc("ValueError"), pulls |-> 1]
                       ELSE Whole(p, RStar)
      [] c = "any" -> Early(p, LAMBDA x : x # 0, TRUE, FALSE)
      [] c = "all" -> Early(p, LAMBDA x : x = 0, FALSE, TRUE)
      [] c = "in"  -> Early(p, LAMBDA x : x = 2, TRUE, FALSE)
      [] c = "unpack2" -> IF len >= 3 THEN [out |-> OExc("ValueError"), pulls |-> 3]
-                         ELSE [out |-> IF Fails(p) THEN OExc("KeyError") ELSE IF len = 2 THEN RList(p.items) ELSE OExc("ValueError"),
+                         ELSE [out |-> IF Fails(p) THEN OExc(ErrClass(p.end)) ELSE IF len = 2 THEN RList(p.items) ELSE OExc("ValueError"),
                                pulls |-> len + 1]
      [] c = "zip2" -> [out |-> IF len >= 1 THEN OVal(VList(<< VList(<< VInt(7), VInt(p.items[1]) >>) >>))
-                               ELSE IF Fails(p) THEN OExc("KeyError") ELSE OVal(VList(<<>>)), pulls |-> 1]
+                               ELSE IF Fails(p) THEN OExc(ErrClass(p.end)) ELSE OVal(VList(<<>>)), pulls |-> 1]
      [] c = "nextd" -> IF len >= 3 THEN [out |-> RList(SubSeq(p.items, 1, 3)), pulls |-> 3]
-                       ELSE IF Fails(p) THEN [out |-> OExc("KeyError"), pulls |-> len + 1]
+                       ELSE IF Fails(p) THEN [out |-> OExc(ErrClass(p.end)), pulls |-> len + 1]
                        ELSE [out |-> RList(p.items \o [i \in 1..(3 - len) |-> -1]), pulls |-> 3]
 
 AlgMatchesDecl == phase = "done" => (out = Decl(cs.cons, cs.p).out /\ n = Decl(cs.cons, cs.p).pulls)
 LazyCreation   == phase # "new" => npre = 0
 \* the only way a consumer ends with a value is a StopIteration or a decision taken on the consumed prefix;
 \* an exception outcome other than the consumer's own ValueError is the producer's, unchanged
-OnlyStopEnds == (phase = "done" /\ out.t = "exc" /\ out.e = "KeyError") => (Fails(cs.p) /\ n = Len(cs.p.items) + 1)
+OnlyStopEnds == (phase = "done" /\ out.t = "exc" /\ out.e \in {"KeyError", "Exception", "BaseException"}) => (Fails(cs.p) /\ n = Len(cs.p.items) + 1)
 NeverBeyondFailure == n <= Len(cs.p.items) + 1 \/ ~Fails(cs.p)
 TypeOK == phase \in {"new", "pull", "done"} /\ n \in 0..(MaxLen + 3) /\ out.t \in {"val", "exc"}
 
